@@ -3,7 +3,7 @@
     mapped to their OCaml counterparts); N, positive, Z, Flocq's binary_float and everything else
     stay Coq datatypes. *)
 Require Import PM.Base PM.Varint PM.Oracles PM.Directory PM.Params PM.Stream PM.Float PM.Header
-               PM.Hilbert PM.TileManager PM.DirWriter PM.DirReader PM.Archive PM.History PM.FinishSpec.
+               PM.Hilbert PM.TileManager PM.DirWriter PM.DirReader PM.Archive PM.History PM.FinishSpec PM.ReadWindows PM.IO.
 From Coq Require Import ExtrOcamlBasic.
 Extraction Language OCaml.
 Extraction "extracted/model.ml"
@@ -16,5 +16,5 @@ Extraction "extracted/model.ml"
   write_directories read_directories range_end_inc in_range
   finish logical spec_finish
   to_writer to_bytes from_reader get_tile_xyz pm_new
-  step run
+  step run open_windows read_exact read_to_end write_all fetch
   max_z max_root_dir_length header_bytes default_leaf_size.
